@@ -55,8 +55,8 @@ M = [
   "            case 1: { /* Instance check: */\n                Py_ssize_t kind = PyTuple_GET_SIZE(type_info);\n                if (((kind == 3) && (value == Py_None))\n                    ||",
   "            case 1: { /* Instance check: */\n                Py_ssize_t kind = PyTuple_GET_SIZE(type_info);\n                if ((0 && (kind == 3) && (value == Py_None))\n                    ||"),
  ("C01", "int-range-exclusive-high-off-by-one", "traits/trait_types.py",
-  "                or (self._exclude_high and (self._high > value))\n                or ((not self._exclude_high) and (self._high >= value))\n            )\n        ):\n            return value\n\n        self.error(object, name, original_value)\n\n    def float_validate",
-  "                or (self._exclude_high and (self._high >= value))\n                or ((not self._exclude_high) and (self._high >= value))\n            )\n        ):\n            return value\n\n        self.error(object, name, original_value)\n\n    def float_validate"),
+  "            value = _validate_int(value)\n        except TypeError:\n            self.error(object, name, original_value)\n\n        if (\n            (\n                (self._low is None)\n                or (self._exclude_low and (self._low < value))\n                or ((not self._exclude_low) and (self._low <= value))\n            )\n            and (\n                (self._high is None)\n                or (self._exclude_high and (self._high > value))",
+  "            value = _validate_int(value)\n        except TypeError:\n            self.error(object, name, original_value)\n\n        if (\n            (\n                (self._low is None)\n                or (self._exclude_low and (self._low < value))\n                or ((not self._exclude_low) and (self._low <= value))\n            )\n            and (\n                (self._high is None)\n                or (self._exclude_high and (self._high >= value))"),
  ("C11", "getattr-delegate-prefix-ignored", "traits/ctraits.c", "XXXX-not-used", "XXXX"),
 ]
 flt = sys.argv[1] if len(sys.argv) > 1 else ""
